@@ -36,6 +36,7 @@ def src_text(x):
     k, p = x % 16, x // 16
     if k == 1: return "{{ %d }}{%% bad" % p
     if k == 2: return "{{ %d }}{%% for x in [1,2] %%}{%% set y %%}a{{ 1 // 0 }}{%% endset %%}{%% endfor %%}" % p
+    if k == 15: return "{%% autoescape %s %%}{{ %s }}{%% endautoescape %%}" % (["'none'", "'html'", "'json'"][(p // 3) % 3], expr_text(x))
     if k == 6: return "{%% for i in [1] %%}\\n{{ %d }}{%% endfor %%}" % p
     if k == 7: return "{%% if true %%}{{ %d }}{%% endif %%}\\n" % p
     return "{{ %s }}" % expr_text(x)
@@ -56,6 +57,7 @@ def expr_text(x):
     if k == 12: return "(data|tojson)|length"
     if k == 13: return "(data|string)|length"
     if k == 14: return "1 if q is kt(opt=1) else 0"
+    if k == 15: return ["site", "site.n", "site.go(1)"][p % 3]
     return "%d" % p
 
 
@@ -72,7 +74,9 @@ def describe_step(s):
     if op == 3: return 'add_template_owned(String "%s", &str "%s")' % (n, src_text(b))
     if op == 4: return 'remove_template("%s")' % n
     if op == 5: return "clear_templates()"
-    if op == 6: return "set_loader(loader#%d)" % a
+    if op == 6: return "set_loader(loader#%d%s)" % (a, ", rendering an inner template before it answers" if a >= 4 else "")
+    if op == 23: return "set_formatter(%s)" % ("a formatter that renders an inner template first" if a % 2 else "escape_formatter")
+    if op == 24: return "set_auto_escape_callback(a callback that renders an inner template first)"
     if op == 7: return "clock := %d" % a
     if op == 8:
         return 'get_template("%s").render(q=%d)%s%s' % (n, b % 4, " into a failing writer" if (b // 4) % 2 else "", " on a thread of its own" if (b // 8) % 2 else "")
@@ -80,7 +84,12 @@ def describe_step(s):
         k = min(a // 4, 2)
         rn = REG_NAMES[k][a % 4]
         if rn == "site":
-            return ('add_global("site", container#%d)' % b) if op == 9 else 'remove_global("site")'
+            what = ("container#%d" % b) if b < 4 else "object rendering an inner template (%s env, autoescape %s) in Display / .n / .go()" % (
+                ["a fresh", "an unrelated"][(b - 4) % 2], ["none", "html", "json"][((b - 4) // 2) % 3])
+            return ('add_global("site", %s)' % what) if op == 9 else 'remove_global("site")'
+        if op == 9 and b >= 4 and a % 4 < 2:
+            return '%s("%s", callable rendering an inner template on %s, autoescape %s)' % (
+                REG_API[k][0], rn, ["the same environment", "a clone", "a fresh environment"][(b - 4) % 3], ["none", "html", "json"][((b - 4) // 3) % 3])
         return ('%s("%s", variant %d)' % (REG_API[k][0], rn, b)) if op == 9 else ('%s("%s")' % (REG_API[k][1], rn))
     if op == 11: return "clone; continue on the clone"
     if op == 12: return "clone; continue on the original"
@@ -122,8 +131,9 @@ def rand_src(rng):
     if r < 62: return 3 + rng.below(3) + 16 * rng.below(64)   # uses a filter / test / global function
     if r < 70: return 6 + rng.below(2) + 16 * rng.below(40)   # whitespace-sensitive
     if r < 80: return 8 + rng.below(2)                        # prints / serializes the global container
-    if r < 92: return rng.choice([10, 10, 11, 14]) + 16 * rng.below(8)   # Kwargs function / filter / test
-    return 12 + rng.below(2)                                  # serializes / prints a container of the context
+    if r < 90: return rng.choice([10, 10, 11, 14]) + 16 * rng.below(8)   # Kwargs function / filter / test
+    if r < 96: return 12 + rng.below(2)                       # serializes / prints a container of the context
+    return 15 + 16 * rng.below(9)                             # prints / asks / calls the global `site` under none/html/json
 
 
 # registry slots worth touching: r = 4*kind + name
@@ -145,15 +155,16 @@ def rand_step(rng, used):
     if r < 22: return (1 + rng.below(3), rand_name(rng), src())
     if r < 28: return (4, rand_name(rng), 0)
     if r < 31: return (5, 0, 0)
-    if r < 38: return (6, rng.below(4), 0)
+    if r < 38: return (6, rng.below(8), 0)
     if r < 47: return (7, rng.below(10), 0)
     if r < 55: return (8, rand_name(rng), rng.choice([0, 0, 1, 1, 2, 3, 4, 5, 8, 9, 13]))
-    if r < 62: return (9, rng.choice(REG_SLOTS), 1 + rng.below(3))
+    if r < 62: return (9, rng.choice(REG_SLOTS), 1 + rng.below(3) if rng.chance(1, 2) else 4 + rng.below(9))
     if r < 66: return (10, rng.choice(REG_SLOTS), 0)
     if r < 71: return (11 + rng.below(2), 0, 0)
     if r < 76: return (13, 0, 0)
-    if r < 81: return (22, rng.below(4), 0)
-    if r < 96:
+    if r < 80: return (22, rng.below(4), 0)
+    if r < 82: return (23 + rng.below(2), rng.below(6), 0)
+    if r < 96 and r >= 82:
         # ad-hoc entry points; the name collides with a stored / loader-served template 5 times out of 6
         op = rng.choice(ADHOC + (14, 14, 17))
         return (op, rng.below(6) if rng.chance(5, 6) else 9, src())
@@ -180,14 +191,17 @@ def gen(chk):
     # failing writers, other threads), different contexts through the same stored template
     alpha2 = [(1, 0, 10 + 16 * 5), (0, 1, 8), (0, 2, 9), (0, 3, 12), (9, 11, 1), (9, 11, 2), (9, 10, 1), (9, 10, 2),
               (8, 0, 0), (8, 0, 1), (8, 0, 9), (8, 2, 0), (8, 1, 4), (11, 0, 0)]
+    # third family: nested / re-entrant renders (objects, filters, formatters that render a template themselves)
+    alpha3 = [(9, 10, 6), (9, 10, 5), (1, 0, 15 + 16 * 3), (0, 1, 15), (0, 2, 15 + 16 * 5), (0, 3, 15 + 16 * 4),
+              (9, 0, 7), (0, 1, 3), (8, 0, 0), (8, 0, 8), (23, 3, 0), (11, 0, 0)]
     maxlen = 4 if chk.thorough else 3
     exhaustive = []
-    for al in (alpha, alpha2):
+    for al in (alpha, alpha2, alpha3):
         ex = [[]]
         for _ in range(maxlen):
             ex = [h + [s] for h in ex for s in al]
             exhaustive += ex
-    alpha = alpha + alpha2
+    alpha = alpha + alpha2 + alpha3
     return hist, exhaustive, alpha, maxlen
 
 
@@ -441,6 +455,12 @@ def main():
             cont = r["contents"][i][k][0]
             if s[0] in (8, 15) and k > 0 and cont[s[1] % 4] >= 0 and r["contents"][i][k - 1][0][s[1] % 4] < 0:
                 events["renders that obtained a source from the loader and pinned it"] += 1
+            if s[0] == 9 and s[2] >= 4 and (s[1] % 4 < 2 or s[1] == 10):
+                events["registered callables/objects that render a template themselves (nested renders)"] += 1
+            if s[0] in (0, 1, 2, 3) and s[2] % 16 == 15 and line[0] == 2:
+                events["templates printing/asking/calling the global object under none/html/json added"] += 1
+            if s[0] in (23, 24) or (s[0] == 6 and s[1] >= 4):
+                events["formatter / auto-escape callback / loader that renders a template itself installed"] += 1
             if s[0] == 8:
                 if (s[2] // 4) % 2: events["renders into a failing writer"] += 1
                 if (s[2] // 8) % 2: events["renders on a thread of their own"] += 1
